@@ -115,6 +115,13 @@ def enc_token(tok, tid):
     if k == "J":
         return b"garbage-%d\r\n\r\n" % tid
     if k == "Q":
+        # one model token (KPartial: "an incomplete line / incomplete head block"), three spellings: a partial line
+        # (kept in HttpParser._tail), complete lines of an unfinished head (kept in HttpParser._lines), or both
+        form = tok[1] if len(tok) > 1 else 0
+        if form == 1:
+            return b"HTTP/1.1 200 OK\r\nX-U: %d\r\n" % tid
+        if form == 2:
+            return b"HTTP/1.1 200 OK\r\nX-U: %d\r\nX-" % tid
         return b"HT"
     raise ValueError(tok)
 
@@ -788,6 +795,7 @@ def structured_cases(quick):
         "head-close": [["H", 0, 1, 0]],
         "head-partbody": [["H", 3, 0, 0], ["Y", 1]],
         "partial": [["Q"]],
+        "partial-lines": [["Q", 1]],
         "junk": [["J"]],
         "excess": None,            # body token longer than announced
         "two-heads": [["H", 0, 0, 0], ["H", 1, 0, 0], ["Y", 1]],
@@ -801,6 +809,10 @@ def structured_cases(quick):
                 for after in afters:
                     for closeA in (0, 1):
                         if quick and closeA and (sk not in ("head", "none") or after != "read"):
+                            continue
+                        if closeA and sk == "partial-lines":
+                            # after `Connection: close` a complete surplus line is a parse error ("data after
+                            # Connection: close") where a partial line is not: KPartial does not distinguish them
                             continue
                         if quick and after in ("hold-release", "hold-close") and split != "head+part|rest":
                             continue
